@@ -479,15 +479,17 @@ class FileResponse(Response, FileResponseMixin):
         stat_result = self.stat_result
         file_size = stat_result.st_size
 
-        http_range, http_if_range = "", ""
+        http_range: Optional[str] = None
+        http_if_range: Optional[str] = None
         for key, value in scope["headers"]:
             if key == b"range":
                 http_range = value.decode("latin-1")
             elif key == b"if-range":
                 http_if_range = value.decode("latin-1")
 
-        if http_range == "" or (
-            http_if_range != "" and not self.judge_if_range(http_if_range, stat_result)
+        if http_range is None or (
+            http_if_range is not None
+            and not self.judge_if_range(http_if_range, stat_result)
         ):
             return await self.handle_all(send_header_only, file_size, scope, send)
 
